@@ -60,12 +60,23 @@ RunFrom(st, s, x) ==
                IN  [calls |-> <<c>> \o FlattenSeqs([j \in 1..Len(kids) |-> rs[j].calls]),
                     out |-> FlattenSeqs([j \in 1..Len(kids) |-> rs[j].out])]
 
-SrcElems(p) == [i \in 1..Len(p.input) |-> Elem(i - 1, p.input[i])]
+\* A derived program (the part of a chain after an eager site, see Groups below) carries its
+\* source elements explicitly (`elems`, with their lineage keys) and the number of stages that
+\* precede it in the original chain (`off`), so that stage numbers stay those of the original.
+\* src = "vecadv": a concurrent iterator over a Vec from which p.adv elements were pulled before it
+\* was handed to the library; what is left keeps its original positions.
+Adv(p) == IF p.src = "vecadv" /\ "adv" \in DOMAIN p THEN p.adv ELSE 0
+SrcElems(p) == IF "elems" \in DOMAIN p THEN p.elems
+               ELSE [i \in 1..(Len(p.input) - Adv(p)) |-> Elem(Adv(p) + i - 1, p.input[Adv(p) + i])]
+StageOff(p) == IF "off" \in DOMAIN p THEN p.off ELSE 0
+ShiftCalls(calls, off) == [i \in 1..Len(calls) |-> <<calls[i][1] + off, calls[i][2], calls[i][3]>>]
 
 \* per source position: [calls, out]
 PerElem(p) == LET st == Stages(p)
                   src == SrcElems(p)
-              IN  [i \in 1..Len(src) |-> RunFrom(st, 1, src[i])]
+              IN  [i \in 1..Len(src) |->
+                     LET r == RunFrom(st, 1, src[i])
+                     IN  [calls |-> ShiftCalls(r.calls, StageOff(p)), out |-> r.out]]
 
 OutOf(pe) == FlattenSeqs([i \in 1..Len(pe) |-> pe[i].out])
 CallsOf(pe) == FlattenSeqs([i \in 1..Len(pe) |-> pe[i].calls])
@@ -164,11 +175,11 @@ FullPerElem(p) ==
       src == SrcElems(p)
   IN  [i \in 1..Len(src) |->
          LET r == RunFrom(st2, 1, src[i])
-         IN  [calls |-> IF TermHasClosure(p) THEN Renumber(r.calls, Len(st) + 1, TermStage) ELSE r.calls,
-              out |-> r.out]]
+             cs == IF TermHasClosure(p) THEN Renumber(r.calls, Len(st) + 1, TermStage - StageOff(p)) ELSE r.calls
+         IN  [calls |-> ShiftCalls(cs, StageOff(p)), out |-> r.out]]
 
 \* the stage whose call is the first closure evaluated per source element
-FirstStage(p) == IF Len(Stages(p)) > 0 THEN 1 ELSE TermStage
+FirstStage(p) == IF Len(Stages(p)) > 0 THEN StageOff(p) + 1 ELSE TermStage
 
 NumFlat(p) == Len(SelectSeq(Stages(p), LAMBDA o : o.k = "flat"))
 RECURSIVE Pow(_, _)
@@ -293,4 +304,33 @@ IsSequential(pr) == pr.nt = "max" /\ pr.ntv = 1
 RECURSIVE ParamsAfter(_, _, _)
 ParamsAfter(ops, i, pr) == IF i > Len(ops) THEN pr ELSE ParamsAfter(ops, i + 1, SetParam(pr, ops[i]))
 FinalParams(p) == ParamsAfter(p.ops, 1, DefaultParams)
+(***************************************************************************)
+(* A chain with eager sites is executed as a sequence of runs: everything  *)
+(* before the first eager transformation is materialised with collect_vec  *)
+(* (under the parameters set so far) when that transformation is applied,  *)
+(* and the rest of the chain starts afresh from the materialised vector.   *)
+(* Groups(p) is that sequence of programs.                                 *)
+(***************************************************************************)
+MinOf(S) == CHOOSE x \in S : \A y \in S : x <= y
+RECURSIVE OpIndexOfStage(_, _, _)
+\* index in ops of the n-th stage op
+OpIndexOfStage(ops, i, n) == IF IsStage(ops[i]) THEN (IF n = 1 THEN i ELSE OpIndexOfStage(ops, i + 1, n - 1))
+                             ELSE OpIndexOfStage(ops, i + 1, n)
+IsParamOp(o) == ~IsStage(o)
+MaterialiseTerm == [k |-> "collect_vec", t |-> <<>>, op |-> "", tk |-> "", pre |-> <<>>, cap |-> 0]
+
+RECURSIVE Groups(_)
+Groups(p) ==
+  LET es == EagerStages(p)
+  IN  IF es = {} THEN <<p>>
+      ELSE LET e == MinOf(es)
+               idx == OpIndexOfStage(p.ops, 1, e)
+               before == SubSeq(p.ops, 1, idx - 1)
+               p1 == [src |-> p.src, input |-> p.input, elems |-> SrcElems(p), off |-> StageOff(p),
+                      ops |-> before, term |-> MaterialiseTerm, cs |-> p.cs, ck |-> p.ck]
+               mid == SeqOut(p1)
+               p2 == [src |-> "vec", input |-> Vals(mid), elems |-> mid, off |-> StageOff(p) + e - 1,
+                      ops |-> SelectSeq(before, IsParamOp) \o SubSeq(p.ops, idx, Len(p.ops)),
+                      term |-> p.term, cs |-> p.cs, ck |-> p.ck]
+           IN  <<p1>> \o Groups(p2)
 =============================================================================
